@@ -5,7 +5,9 @@ import (
 	"fmt"
 	"math/rand"
 	"os"
+	"os/exec"
 	"sort"
+	"strconv"
 	"strings"
 
 	formula "github.com/aundis/formula"
@@ -286,7 +288,10 @@ var purityUnrelated = []string{"1 + 2 * 3", "'a' + 'b'", "[1, 2, 3]", "len('abc'
 	"1 / 3 * 3", "regexp('abc', '(a|b)+c')", "join(['a', 'b'], '-')", "typeof x", "(1, 2, 3)", "a ? b : c", "toFloat(toString(1.50))",
 	"1 +", "f(", "'open", "mid('hello', 1, 3)", "replace('aaa', 'a', 'b')", "abs(-3) === 3", "~5 & 3 | 8 ^ 1", "year(date(1999, 12, 31))", "nope(1)",
 	"9999999999999999999999999999999999 * 1.5", "1000000000000000000000000000000000 + 2.5", "(x).y + len((a)!.b)", "roundBank(0.5) + roundBank(1.5)", "1 / 8 * 3",
-	"floor(-2.5) + ceil(-2.5)", "sqrt(2) * sqrt(2)", "toInt('12.9') + toFloat('1e2')"}
+	"floor(-2.5) + ceil(-2.5)", "sqrt(2) * sqrt(2)", "toInt('12.9') + toFloat('1e2')",
+	// results that a cache keyed too coarsely would carry from one evaluation or text to another
+	"regexp('a', 'a')", "regexp('a', '(')", "regexp('ab', '[')", "regexp('ab', 'a.')", "regexp('(', '(')",
+	"\u0663 + 1", "n\u0663 * 2", "\u0301 + 1", "cafe\u0301 + 1", "\u203f", "a\u203f", "\u2118x", "x\u2118", "\u00aa\u00b7", "\u00b7\u00aa"}
 
 func outcomeForTrace(o any) any {
 	ot, _ := o.([]any)
@@ -305,6 +310,7 @@ func recordPurity(args []string) int {
 	seed := fs.Int64("seed", 1, "seed")
 	n := fs.Int("n", 3000, "operations")
 	one := fs.String("one", "", "unused: a purity failure is a property of the whole history")
+	order := fs.String("order", "both", "fwd | rev: the order of the prologue in this process; both: one process each, concatenated")
 	fs.Parse(args)
 	if *one != "" {
 		// a purity failure is a property of the whole history: re-record it with the logged seed and length
@@ -319,6 +325,43 @@ func recordPurity(args []string) int {
 		if m, ok := jsonToVal(e["n"]).(int64); ok {
 			*n = int(m)
 		}
+	}
+	if *order == "both" {
+		// "regardless of which other formulas were parsed or evaluated before": two processes with different
+		// histories; the second one's observations are compared with the first one's
+		exe, err := os.Executable()
+		if err != nil {
+			fmt.Fprintln(os.Stderr, err)
+			return 2
+		}
+		var all []byte
+		for _, o := range []string{"fwd", "rev"} {
+			part := *out + "." + o
+			cmd := exec.Command(exe, "record", "purity", "-out", part, "-seed", strconv.FormatInt(*seed, 10), "-n", strconv.Itoa(*n), "-order", o)
+			cmd.Stderr = os.Stderr
+			if err := cmd.Run(); err != nil {
+				fmt.Fprintln(os.Stderr, "purity recorder ("+o+"):", err)
+				if ee, ok := err.(*exec.ExitError); ok {
+					return ee.ExitCode()
+				}
+				return 2
+			}
+			b, err := os.ReadFile(part)
+			if err != nil {
+				fmt.Fprintln(os.Stderr, err)
+				return 2
+			}
+			os.Remove(part)
+			all = append(all, b...)
+		}
+		if err := os.WriteFile(*out, all, 0o644); err != nil {
+			fmt.Fprintln(os.Stderr, err)
+			return 2
+		}
+		return 0
+	}
+	if *order == "rev" {
+		*seed += 1000003
 	}
 	rng := rand.New(rand.NewSource(*seed))
 	type tgt struct {
@@ -347,6 +390,9 @@ func recordPurity(args []string) int {
 			// prologue: every target is parsed, analysed and evaluated once, in order, round() last, so that the
 			// first observation of each key is made before anything else could have left state behind
 			ti, op = k%len(targets), []int{0, 1, 2}[k/len(targets)]
+			if *order == "rev" {
+				ti = len(targets) - 1 - ti
+			}
 		}
 		t := &targets[ti]
 		switch op {
@@ -401,8 +447,11 @@ func recordPurity(args []string) int {
 				"input": fmt.Sprintf("eval(%q, data %d) at step %d", t.text, j, k), "site": "purity:eval"})
 		}
 	}
+	if *order == "rev" {
+		*seed -= 1000003
+	}
 	for _, e := range evs {
-		e["seed"], e["n"] = *seed, *n
+		e["seed"], e["n"], e["order"] = *seed, *n, *order
 	}
 	if err := writeEvents(*out, evs); err != nil {
 		fmt.Fprintln(os.Stderr, err)
